@@ -263,6 +263,11 @@ impl Server {
                 if let Some(a) = v.get_mut(1).and_then(|x| x.get_mut("elements")).and_then(|x| x.as_array_mut()) {
                     a.sort_by_key(|e| e.to_string());
                 }
+                // the index list is a set: its listing order is not part of the content (a rolled-back
+                // `remove index` re-adds the index at the end of the list)
+                if let Some(a) = v.get_mut(2).and_then(|x| x.get_mut("elements")).and_then(|x| x.get_mut(0)).and_then(|x| x.get_mut("values")).and_then(|x| x.as_array_mut()) {
+                    a.sort_by_key(|e| e.to_string());
+                }
                 v
             }
             Err(e) => json!({"error": e.description}),
